@@ -21,7 +21,7 @@ Record params := {
 (* ------------------------------------------------------------------ *)
 (* 1. locks with a critical-section client                             *)
 
-Inductive lkind := KSpin | KSync | KMutex.
+Inductive lkind := KSpin | KSync | KMutex | KTry.   (* KTry: acquire by a muggle_mutex_trylock / yield loop *)
 
 Inductive lpc :=
   | LStart      (* plain segment before the acquire operation (or before thread exit) *)
@@ -136,10 +136,18 @@ Definition lstep (P : params) (fixed : bool) (s : lsys) (t : nat) (ch : nat) : o
                      l_seen := Nat.max (l_seen x) (l_stamp s); l_reg := l_reg x |} in
         Some (set_thr (set_lock s 1 (l_stamp s)) t x', LEv (Ev OMlock lock_cell MoNone 0 0 0))
       else None   (* blocked until the owner unlocks *)
+    | KTry =>
+      (* pthread_mutex_trylock never blocks: it takes a free mutex (result 1) or reports busy (result 0);
+         muggle_mutex_trylock must map busy to a refusal, on which the client yields and retries *)
+      if l_lock s =? 0 then
+        let x' := {| l_pc := LEnterSeg; l_iters := l_iters x;
+                     l_seen := Nat.max (l_seen x) (l_stamp s); l_reg := l_reg x |} in
+        Some (set_thr (set_lock s 1 (l_stamp s)) t x', LEv (Ev OMtry lock_cell MoNone 1 0 0))
+      else Some (go LAfterFail, LEv (Ev OMtry lock_cell MoNone 0 0 0))
     end
   | LAfterFail =>
     match l_kind s with
-    | KSpin => Some (go LYield, LPlain [])
+    | KSpin | KTry => Some (go LYield, LPlain [])
     | _ => Some (go LWait, LPlain [])
     end
   | LYield => Some (go LStart, LEv (Ev OYield 0%nat MoNone 0 0 0))
@@ -179,7 +187,7 @@ Definition lstep (P : params) (fixed : bool) (s : lsys) (t : nat) (ch : nat) : o
       let mo := mo_sync_store P in
       Some (set_thr (set_lock s 0 (rel_stamp mo (l_seen x))) t (set_pc x LRelSeg),
             LEv (Ev OStore lock_cell mo 0 0 0))
-    | KMutex =>
+    | KMutex | KTry =>
       Some (set_thr (set_lock s 0 (l_seen x)) t x1, LEv (Ev OMunlock lock_cell MoNone 0 0 0))
     end
   | LRelSeg => Some (go LWake, LPlain [])
